@@ -30,11 +30,13 @@ pub enum Kind {
     List = 10,
     Sim = 11,
     ChainSim = 12,
+    /// `text.iter().map_while(is_digit)` over a longer text: a real std adaptor that is NOT fused
+    MapWhile = 13,
 }
-pub const N_KINDS: usize = 13;
+pub const N_KINDS: usize = 14;
 pub const KIND_NAMES: [&str; N_KINDS] = [
     "slice", "chain", "filter", "rev", "skip_take", "peekable", "step_by", "flat_map", "map_index", "vecdeque",
-    "linked_list", "sim", "chain_sim",
+    "linked_list", "sim", "chain_sim", "map_while",
 ];
 pub const ALL_KINDS: [Kind; N_KINDS] = [
     Kind::Slice,
@@ -50,6 +52,7 @@ pub const ALL_KINDS: [Kind; N_KINDS] = [
     Kind::List,
     Kind::Sim,
     Kind::ChainSim,
+    Kind::MapWhile,
 ];
 
 #[derive(Clone, Copy, Debug, Serialize, Deserialize, PartialEq, Eq, Hash)]
@@ -77,6 +80,10 @@ pub struct Knobs {
     pub spec_nth: bool,
     pub spec_fold: bool,
     pub spec_last: bool,
+    /// after its first `None` the iterator yields further (junk) bytes when polled again: the
+    /// Iterator contract leaves behaviour after `None` open (cf. `MapWhile`, `from_fn`)
+    #[serde(default)]
+    pub unfused: bool,
 }
 
 impl Knobs {
@@ -88,6 +95,7 @@ impl Knobs {
         spec_nth: true,
         spec_fold: false,
         spec_last: false,
+        unfused: false,
     };
 }
 
@@ -125,6 +133,7 @@ impl ShapeSpec {
             spec_nth: r.chance(1, 2),
             spec_fold: r.chance(1, 3),
             spec_last: r.chance(1, 3),
+            unfused: r.chance(1, 5),
         }
     }
 
@@ -229,7 +238,10 @@ struct K {
     spec_nth: bool,
     spec_fold: bool,
     spec_last: bool,
+    unfused: bool,
 }
+
+static JUNK_AFTER_NONE: [u8; 8] = *b"73190246";
 
 pub struct SimIter<'a> {
     arena: &'a Arena,
@@ -238,6 +250,8 @@ pub struct SimIter<'a> {
     end: usize,
     k: K,
     calls: u64,
+    /// number of `None`s returned so far (unfused iterators resume after the first)
+    nones: u32,
 }
 
 #[inline]
@@ -259,8 +273,10 @@ impl<'a> SimIter<'a> {
                 spec_nth: knobs.spec_nth,
                 spec_fold: knobs.spec_fold,
                 spec_last: knobs.spec_last,
+                unfused: knobs.unfused,
             },
             calls: 0,
+            nones: 0,
         }
     }
 }
@@ -269,7 +285,7 @@ impl<'a> Clone for SimIter<'a> {
     fn clone(&self) -> Self {
         sched::yield_point(OP_CLONE, self.pos as u64, true, self.calls);
         let copy = if self.k.relocate { (self.copy + 1) % self.arena.copies.len() } else { self.copy };
-        SimIter { arena: self.arena, copy, pos: self.pos, end: self.end, k: self.k, calls: 0 }
+        SimIter { arena: self.arena, copy, pos: self.pos, end: self.end, k: self.k, calls: 0, nones: self.nones }
     }
 }
 
@@ -281,6 +297,11 @@ impl<'a> Iterator for SimIter<'a> {
         self.calls += 1;
         sched::yield_point(OP_NEXT, self.pos as u64, is_key(self.pos, self.end), self.calls);
         if self.pos >= self.end {
+            if self.k.unfused {
+                // one None, then junk digits for three polls, then None again, ...
+                self.nones += 1;
+                return if self.nones % 4 == 1 { None } else { Some(&JUNK_AFTER_NONE[(self.nones % 8) as usize]) };
+            }
             // fused: None forever
             return None;
         }
@@ -408,6 +429,15 @@ impl Store {
         };
         match spec.kind {
             Kind::Slice | Kind::MapIndex => st.plain = bytes.to_vec(),
+            Kind::MapWhile => {
+                // the digits, a separator, and more digits that a poll after `None` would reach
+                st.aux = bytes.to_vec();
+                st.aux.push(*r.pick(&[b'.', b'e', b' ', b'_']));
+                for _ in 0..(1 + r.usize_below(12)) {
+                    let d = r.digit();
+                    st.aux.push(d);
+                }
+            },
             Kind::Chain => {
                 st.plain = bytes.to_vec();
                 st.split = match spec.a % 4 {
@@ -553,6 +583,9 @@ macro_rules! build {
     (Sim, $s:expr) => {
         SimIter::new(&$s.arena, &$s.knobs, 0, $s.arena.len)
     };
+    (MapWhile, $s:expr) => {
+        $s.aux.iter().map_while(|c| if c.is_ascii_digit() { Some(c) } else { None })
+    };
     (ChainSim, $s:expr) => {
         SimIter::new(&$s.arena, &$s.knobs, 0, $s.split).chain(SimIter::new(&$s.arena, &$s.knobs, $s.split, $s.arena.len))
     };
@@ -587,6 +620,7 @@ pub fn with_pair<V: PairVisitor>(ki: Kind, kf: Kind, bi: &Store, bf: &Store, v: 
         (List, List) => same!(v, bi, bf, List),
         (Sim, Sim) => same!(v, bi, bf, Sim),
         (ChainSim, ChainSim) => same!(v, bi, bf, ChainSim),
+        (MapWhile, MapWhile) => same!(v, bi, bf, MapWhile),
 
         (Slice, Chain) => pair!(v, bi, bf, Slice, Chain),
         (Slice, Filter) => pair!(v, bi, bf, Slice, Filter),
@@ -600,6 +634,7 @@ pub fn with_pair<V: PairVisitor>(ki: Kind, kf: Kind, bi: &Store, bf: &Store, v: 
         (Slice, List) => pair!(v, bi, bf, Slice, List),
         (Slice, Sim) => pair!(v, bi, bf, Slice, Sim),
         (Slice, ChainSim) => pair!(v, bi, bf, Slice, ChainSim),
+        (Slice, MapWhile) => pair!(v, bi, bf, Slice, MapWhile),
 
         (Chain, Slice) => pair!(v, bi, bf, Chain, Slice),
         (Filter, Slice) => pair!(v, bi, bf, Filter, Slice),
@@ -613,6 +648,7 @@ pub fn with_pair<V: PairVisitor>(ki: Kind, kf: Kind, bi: &Store, bf: &Store, v: 
         (List, Slice) => pair!(v, bi, bf, List, Slice),
         (Sim, Slice) => pair!(v, bi, bf, Sim, Slice),
         (ChainSim, Slice) => pair!(v, bi, bf, ChainSim, Slice),
+        (MapWhile, Slice) => pair!(v, bi, bf, MapWhile, Slice),
 
         (Sim, Chain) => pair!(v, bi, bf, Sim, Chain),
         (Sim, Filter) => pair!(v, bi, bf, Sim, Filter),
@@ -625,6 +661,7 @@ pub fn with_pair<V: PairVisitor>(ki: Kind, kf: Kind, bi: &Store, bf: &Store, v: 
         (Sim, Deque) => pair!(v, bi, bf, Sim, Deque),
         (Sim, List) => pair!(v, bi, bf, Sim, List),
         (Sim, ChainSim) => pair!(v, bi, bf, Sim, ChainSim),
+        (Sim, MapWhile) => pair!(v, bi, bf, Sim, MapWhile),
 
         (Chain, Sim) => pair!(v, bi, bf, Chain, Sim),
         (Filter, Sim) => pair!(v, bi, bf, Filter, Sim),
@@ -637,6 +674,7 @@ pub fn with_pair<V: PairVisitor>(ki: Kind, kf: Kind, bi: &Store, bf: &Store, v: 
         (Deque, Sim) => pair!(v, bi, bf, Deque, Sim),
         (List, Sim) => pair!(v, bi, bf, List, Sim),
         (ChainSim, Sim) => pair!(v, bi, bf, ChainSim, Sim),
+        (MapWhile, Sim) => pair!(v, bi, bf, MapWhile, Sim),
 
         (a, b) => panic!("shape pair ({:?},{:?}) is not instantiated", a, b),
     }
@@ -663,7 +701,8 @@ impl PairVisitor for CollectVisitor {
         for _ in 0..va.len() {
             a3.next();
         }
-        ok &= a3.next().is_none() && a3.next().is_none();
+        // (the first poll at the end must be None; what comes after is open for non-fused shapes)
+        ok &= a3.next().is_none();
         (va, vb, ok)
     }
 }
